@@ -14,11 +14,12 @@ TRUSTED = ["Model/Tessellation.v (vertex / edge interning, signed cell key, reve
            "create_lattice by exact correspondence; Qhull (scipy.spatial.Voronoi) is an oracle: the harness calls it with the same "
            "centres and hands its regions to the model; round() is an oracle"]
 ASSUMPTIONS = ["regions in which two consecutive corners round to the same point (zero-length ridge after rounding) are not judged"]
-TESTED_NOT_PROVED = ["'one cell per bounded region below the cut-off, with the region's rounded corners as cycle' is evaluated by the oracle against "
+TESTED_NOT_PROVED = ["which regions survive the cut-off is proved for the model (C19_cells_are_the_regions_below_the_cut_off, order independence, monotonicity) and tied "
+                     "exactly to remove_infinite_regions on Qhull's output; that each surviving region becomes one cell with the region's rounded corners as cycle is evaluated by the oracle against "
                      "scipy's diagram; 'all cells in the same rotational sense' is proved over the reals for the rule of the model "
                      "(C19_stored_cycles_share_one_sense: sign taken on the doubled vertex list, reversal when positive) and re-checked on the "
                      "implementation by the oracle"]
-IMPORTS = "From Forsys Require Import Model.Num Model.CaseUtil Model.Geometry Model.Tessellation.\n"
+IMPORTS = "From Forsys Require Import Model.Num Model.CaseUtil Model.PyList Model.Geometry Model.Tessellation Model.RegionFilter.\n"
 
 
 def kept_regions(centres, max_distance, raw=False):
@@ -61,8 +62,40 @@ def cyc_equal(a, b):
     return False
 
 
+def region_filter_case(res, centres, max_distance, exprs, replay):
+    """Model/RegionFilter.v against tessellation.remove_infinite_regions on Qhull's own output (regions and vertices as scipy returns them for
+    the centres): which regions are left after the cut-off, exact over the rationals; cut-offs within 1e-9 of a region's diameter are skipped"""
+    import copy
+    from fractions import Fraction
+    if not np.isfinite(max_distance) or sum(1 for _, rp_ in exprs if isinstance(rp_, dict) and rp_.get("what") == "region filter") >= 12:
+        return
+    vor = Voronoi([tuple(c) for c in centres])
+    regs = [[int(i) for i in c] for c in vor.regions]
+    if sum(len(c) for c in regs) > 1500:
+        return
+    V = [(Fraction(float(x)), Fraction(float(y))) for x, y in vor.vertices]
+    m2 = Fraction(float(max_distance)) ** 2
+    for c in regs:
+        if c and -1 not in c:
+            d2 = max((V[i][0] - V[j][0]) ** 2 + (V[i][1] - V[j][1]) ** 2 for i in c for j in c)
+            if abs(d2 - m2) <= Fraction(1, 10 ** 9) * m2:
+                res.count("region filter: cut-off on a diameter (tie, skipped)")
+                return
+    try:
+        kept = impl.fs.tessellation.remove_infinite_regions(vor, copy.deepcopy(vor.regions), max_distance=max_distance)
+    except Exception as ex:  # noqa
+        res.fail("oracle", f"remove_infinite_regions raised {type(ex).__name__}: {str(ex)[:80]}", replay)
+        return
+    kept = [[int(i) for i in c] for c in kept]
+    tbl = "[" + "; ".join(f"({k}, ({C.qlit(x)}, {C.qlit(y)}))" for k, (x, y) in enumerate(V)) + "]"
+    exprs.append((f"let verts := assoc_def (0, 0)%Q {tbl} in listlistZ_eqb (remove_infinite_regions verts {C.qlit(m2)} {C.zlistlist(regs)}) {C.zlistlist(kept)}",
+                  dict(replay, what="region filter")))
+    res.count("region filter correspondence" + (" (cut-off active)" if len(kept) < len(regs) else ""))
+
+
 def check_set(res, centres, max_distance, exprs, label):
     replay = {"centres": [list(map(float, c)) for c in centres], "max_distance": max_distance, "label": label}
+    region_filter_case(res, centres, max_distance, exprs, replay)
     regions = kept_regions(centres, max_distance)
     rawreg = kept_regions(centres, max_distance, raw=True)
     tie = any(abs(((abs(x) * 1000) % 1) - 0.5) < 1e-4 for r in rawreg for p in r for x in p)
@@ -170,7 +203,8 @@ def run(res, tier, seed):
     for (e, rp), b in zip(exprs, bools):
         res.traces += 1
         if b is not True:
-            res.fail("correspondence", "model != implementation (lattice elements)" if b is False else "case did not evaluate",
+            res.fail("correspondence", ("model != implementation (regions left after the distance cut-off, Model/RegionFilter.v)" if isinstance(rp, dict) and rp.get("what") == "region filter"
+                                        else "model != implementation (lattice elements)") if b is False else "case did not evaluate",
                      {"correspondence": "Model/Tessellation.v vs tessellation.create_lattice_elements / create_lattice", "case": rp})
 
 
